@@ -32,7 +32,8 @@ CLAIMS = {
           'namespace only when no function handler was found and the four '
           'trigger_event methods to dispatch to on_<event>. Decides the '
           'routing decision for every registry configuration rather than '
-          'the two sampled ones.',
+          'the two sampled ones.'
+          ' Also: resolver purity - the resolver reads only the registry and its arguments and stores nothing (a cache makes the answer history-dependent).',
   'note': TRUST + "Assumes event/namespace names differ from the literal "
           "'*' and registered handlers are truthy. A resolver rewritten "
           'into a form outside the evaluator (lookup loop, helper in '
@@ -54,7 +55,8 @@ CLAIMS = {
           'handler, refuses with the refusal data and releases membership; '
           'transport loss ends every namespace; ConnectionRefusedError '
           'table. NOT decided: sid freshness (engine.io), threaded races '
-          '(C20), delivery after disconnect beyond the room structure.',
+          '(C20), delivery after disconnect beyond the room structure.'
+          ' Also: a ConnectionRefusedError raised by any invocation of the connect handler (legacy-signature retry included) is contained and handled as a refusal; a refused duplicate CONNECT touches no state keyed by the client.',
   'note': TRUST + 'asyncio tasks interleave only at awaits that can '
           'suspend (computed as a fixed point over the call graph; abstract '
           'coroutines count as suspending).',
@@ -105,7 +107,8 @@ CLAIMS = {
           'callback typestate in _handle_ack; callback-table provenance '
           '(sentinel key for the counter); per-namespace counter; emit '
           'generates the id for its namespace before building the packet; '
-          'call() table. Per packet path, not over sequences.',
+          'call() table. Per packet path, not over sequences.'
+          ' Also: the client resolver table over all registry states and its purity (the resolver reads only the registry) are shared from C13.',
   'note': TRUST,
   'technique': 'static analysis: decision tables by symbolic path '
                'enumeration, typestate, provenance',
@@ -122,7 +125,8 @@ CLAIMS = {
           'every exit; a raising handler does not skip the remaining '
           'namespaces; emptied rooms/namespaces/pending lists are '
           'collected; background-task references are discarded. Memory '
-          'growth as a number is NOT decided.',
+          'growth as a number is NOT decided.'
+          ' Also: room membership only with proof that the sid is connected and nothing created before the failing lookup (F11, fixed); statements indexing client-controlled data in the release sequence count as raisers.',
   'note': TRUST + 'raisers = calls that reach application code over the '
           'call graph.',
   'technique': 'static analysis: must-release pairing over enumerated '
@@ -140,7 +144,8 @@ CLAIMS = {
           'own transport id; the packet-type whitelist; decoding precedes '
           'dispatch and its error is not caught in the library; the '
           'connected gate; every answer goes to the sender\'s transport. '
-          'Global non-interference over all server states is NOT decided.',
+          'Global non-interference over all server states is NOT decided.'
+          ' Also: the codec keeps no state outside the packet object (no shared decoder, no globals, no class-attribute writes); the connected-gate itself (is_connected table) is shared from C04.',
   'note': TRUST + 'engine.io contains exceptions of the message callback.',
   'technique': 'static analysis: taint-to-sink scan, guard dominance on '
                'enumerated paths, key provenance',
@@ -156,7 +161,8 @@ CLAIMS = {
           'lifetime rule is violated on the pinned tree (session survives '
           'DISCONNECT + re-CONNECT of a namespace on one transport): '
           'recorded as known findings F2a/F2b. Privacy across transports '
-          'rests on engine.io (trusted).',
+          'rests on engine.io (trusted).'
+          " Also: a refused duplicate CONNECT leaves the live connection's state (session included) untouched (shared C04.R4).",
   'note': TRUST,
   'technique': 'static analysis: provenance of keys on enumerated paths, '
                'pairing rule',
@@ -169,7 +175,8 @@ CLAIMS = {
           'lock across both). No lock exists in the threaded server or the '
           'managers today, so both sites are reported as known findings '
           'F7a/F7b; a lock that covers only one of the two is reported as a '
-          'new violation. This is a necessary condition for the property.',
+          'new violation. This is a necessary condition for the property.'
+          ' Also: whoever marks the client runs the handler on every path; the handler and the mark are dominated by a connected-test made in the same function.',
   'note': TRUST + 'a repair relying on one GIL-atomic operation is not '
           'recognised.',
   'technique': 'static analysis: lockset (held-lock) check on enumerated '
@@ -187,7 +194,8 @@ CLAIMS = {
           'records the sid once; disconnect is reported only from the two '
           'owning functions, once per listed namespace; a failed wait '
           'disconnects before raising and connected is set only when all '
-          'namespaces were accepted. Whole histories are NOT explored.',
+          'namespaces were accepted. Whole histories are NOT explored.'
+          ' Also: a packet handler that lowers `connected` closes the transport on the same path (F12, fixed); disconnect() always closes the transport.',
   'note': TRUST,
   'technique': 'static analysis: must-update / guard dominance on '
                'enumerated paths, ownership',
@@ -204,7 +212,8 @@ CLAIMS = {
           'the task, the registry entry is removed on every exit; the k-th '
           'timeout depends on exactly the four parameters and random(), is '
           'doubled k-1 times and compared with the cap; shutdown aborts '
-          'then joins. The back-off law and jitter bounds are NOT decided.',
+          'then joins. The back-off law and jitter bounds are NOT decided.'
+          ' Also: the single-effort guard _reconnect_task has three writers only; it is released on every exit of an effort (F13: known finding on the give-up and abort exits).',
   'note': TRUST + 'engine.io clears eio.state before notifying an '
           'intentional close.',
   'technique': 'static analysis: path enumeration with bounded unrolling, '
@@ -219,7 +228,8 @@ CLAIMS = {
           'non-empty test; no foreign writer of the buffer; DisconnectedError '
           'and TimeoutError only with the buffer empty; emit/call gated on '
           'the connected event and flag with SocketIOError looping back. '
-          'Interleavings are NOT explored.',
+          'Interleavings are NOT explored.'
+          ' Also: the connected flag / connected event state machine of the three connection handlers, who lowers the flag and who signals the event.',
   'note': TRUST,
   'technique': 'static analysis: ordering/window rules on enumerated paths',
  },
@@ -287,7 +297,8 @@ CLAIMS = {
           'operations apply locally once then publish once, ignore_queue '
           'stays local, enter/leave are local xor publish; remote room '
           'operations are guarded by is_connected; callback token shape '
-          '(room, namespace, id), arity test and relay binding.',
+          '(room, namespace, id), arity test and relay binding.'
+          ' Also: every path of a well-formed remote message reaches its handler exactly once whatever else the listener tests; the host id compared by the echo filter is drawn afresh per manager object.',
   'note': TRUST + 'the backend channel is FIFO and reaches every host.',
   'technique': 'static analysis: writer/reader schema agreement, decision '
                'table over message method x origin, pairing/order on paths',
@@ -319,7 +330,8 @@ CLAIMS = {
           '12 per class) calls the saved original exactly once with its own '
           'parameters and returns its result; the instrumentation emits '
           'only on the admin namespace. Timing and failures inside the '
-          'instrumentation are NOT decided.',
+          'instrumentation are NOT decided.'
+          ' Also: tables the instrumentation hangs on the server are filled before the original runs (the deleting wrapper arm cannot fail in front of the application).',
   'note': TRUST + 'Python equality decides "equals the credentials".',
   'technique': 'static analysis: decision table, guard dominance, wrapper '
                'forwarding check',
